@@ -1727,4 +1727,458 @@ theorem select_sound_aux (rx : List Char → List Char → Bool) (db : DB) (q : 
         rw [← evalCond_evalW rx db sel.index row w hw c ci hci]
         exact hev
 
+
+/-! ## the planner -/
+
+/-- column `c` of relation `r` is requested by the join map / plan -/
+def Covered (jm : JoinMap) (r c : String) : Prop := ∃ cols, (r, cols) ∈ jm ∧ c ∈ cols
+
+theorem jmAdd_covers (jm : JoinMap) (r c : String) : Covered (jmAdd jm r c) r c := by
+  unfold jmAdd
+  split
+  · rename_i h
+    obtain ⟨p, hp, he⟩ := List.any_eq_true.mp h
+    have he' : p.1 = r := by simpa using he
+    refine ⟨p.2 ++ [c], ?_, by simp⟩
+    apply List.mem_map.mpr
+    exact ⟨p, hp, by simp [he']⟩
+  · exact ⟨[c], by simp, by simp⟩
+
+theorem jmAdd_mono (jm : JoinMap) (r c r' c' : String) (h : Covered jm r' c') :
+    Covered (jmAdd jm r c) r' c' := by
+  obtain ⟨cols, hm, hc⟩ := h
+  unfold jmAdd
+  split
+  · by_cases e : r' = r
+    · refine ⟨cols ++ [c], ?_, by simp [hc]⟩
+      apply List.mem_map.mpr
+      exact ⟨(r', cols), hm, by simp [e]⟩
+    · refine ⟨cols, ?_, hc⟩
+      apply List.mem_map.mpr
+      exact ⟨(r', cols), hm, by simp [e]⟩
+  · exact ⟨cols, by simp [hm], hc⟩
+
+theorem jmAdd_names (jm : JoinMap) (r c : String) (x : String × List String) (h : x ∈ jmAdd jm r c) :
+    x.1 = r ∨ ∃ y ∈ jm, y.1 = x.1 := by
+  unfold jmAdd at h
+  split at h
+  · obtain ⟨y, hy, e⟩ := List.mem_map.mp h
+    right
+    refine ⟨y, hy, ?_⟩
+    split at e <;> simp [← e]
+  · rcases List.mem_append.mp h with h | h
+    · exact Or.inr ⟨x, h, rfl⟩
+    · simp at h; left; simp [h]
+
+theorem foldl_jmAdd_covers (qs : List QName) : ∀ (jm : JoinMap),
+    (∀ q ∈ qs, Covered (qs.foldl (fun jm q => jmAdd jm q.1 q.2) jm) q.1 q.2) ∧
+    (∀ r c, Covered jm r c → Covered (qs.foldl (fun jm q => jmAdd jm q.1 q.2) jm) r c) := by
+  induction qs with
+  | nil => intro jm; exact ⟨by simp, fun r c h => h⟩
+  | cons q qs ih =>
+    intro jm
+    have ih' := ih (jmAdd jm q.1 q.2)
+    refine ⟨?_, fun r c h => ih'.2 r c (jmAdd_mono jm _ _ r c h)⟩
+    intro x hx
+    rcases List.mem_cons.mp hx with e | e
+    · rw [e]; exact ih'.2 _ _ (jmAdd_covers jm q.1 q.2)
+    · exact ih'.1 x e
+
+/-- the loop "always add keys" for one relation -/
+def addKeys (qs : List QName) (r : String) (ks : List String) (jm : JoinMap) : JoinMap :=
+  ks.foldl (fun jm k => if qs.contains (r, k) then jm else jmAdd jm r k) jm
+
+theorem addKeys_mono (qs : List QName) (r : String) : ∀ (ks : List String) (jm : JoinMap) r' c',
+    Covered jm r' c' → Covered (addKeys qs r ks jm) r' c' := by
+  intro ks
+  induction ks with
+  | nil => intro jm r' c' h; exact h
+  | cons k ks ih =>
+    intro jm r' c' h
+    simp only [addKeys, List.foldl_cons]
+    apply ih
+    split
+    · exact h
+    · exact jmAdd_mono jm r k r' c' h
+
+theorem addKeys_covers (qs : List QName) (r : String) : ∀ (ks : List String) (jm : JoinMap),
+    (∀ q ∈ qs, Covered jm q.1 q.2) → ∀ k ∈ ks, Covered (addKeys qs r ks jm) r k := by
+  intro ks
+  induction ks with
+  | nil => intro jm _ k hk; simp at hk
+  | cons k0 ks ih =>
+    intro jm hq k hk
+    simp only [addKeys, List.foldl_cons]
+    have hmono : ∀ q ∈ qs, Covered (if qs.contains (r, k0) then jm else jmAdd jm r k0) q.1 q.2 := by
+      intro q hq'
+      split
+      · exact hq q hq'
+      · exact jmAdd_mono jm r k0 _ _ (hq q hq')
+    rcases List.mem_cons.mp hk with e | e
+    · subst e
+      apply addKeys_mono
+      split
+      · rename_i hc
+        have : (r, k) ∈ qs := by simpa using hc
+        exact hq (r, k) this
+      · exact jmAdd_covers jm r k
+    · exact ih _ hmono k e
+
+
+
+theorem allKeys_covers (db : DB) (qs : List QName) : ∀ (all : List String) (jm : JoinMap),
+    (∀ q ∈ qs, Covered jm q.1 q.2) →
+    let jm1 := all.foldl (fun jm r => addKeys qs r (keyNamesOf db r) jm) jm
+    (∀ r c, Covered jm r c → Covered jm1 r c) ∧
+    (∀ r ∈ all, ∀ k ∈ keyNamesOf db r, Covered jm1 r k) := by
+  intro all
+  induction all with
+  | nil => intro jm _; exact ⟨fun r c h => h, by simp⟩
+  | cons r0 all ih =>
+    intro jm hq
+    have hq' : ∀ q ∈ qs, Covered (addKeys qs r0 (keyNamesOf db r0) jm) q.1 q.2 :=
+      fun q hq1 => addKeys_mono qs r0 _ jm _ _ (hq q hq1)
+    have ih' := ih (addKeys qs r0 (keyNamesOf db r0) jm) hq'
+    simp only [List.foldl_cons] at ih' ⊢
+    refine ⟨fun r c h => ih'.1 r c (addKeys_mono qs r0 _ jm r c h), ?_⟩
+    intro r hr k hk
+    rcases List.mem_cons.mp hr with e | e
+    · subst e
+      exact ih'.1 r k (addKeys_covers qs r _ jm hq k hk)
+    · exact ih'.2 r e k hk
+
+/-- keys of the relations joined so far -/
+def keysOfJoins (db : DB) (js : List (String × List String)) : List String :=
+  js.flatMap (fun p => keyNamesOf db p.1)
+
+/-- every step after `jk` has been collected shares a column name with the keys joined so far -/
+def validFrom (db : DB) (jk : List String) : List (String × List String) → Bool
+  | [] => true
+  | p :: ps => intersects jk p.2 && validFrom db (jk ++ keyNamesOf db p.1) ps
+
+/-- a join order is valid if every join but the first has a column named like a key of a
+relation joined before it -/
+def validPlan (db : DB) : List (String × List String) → Bool
+  | [] => true
+  | p :: ps => validFrom db (keyNamesOf db p.1) ps
+
+theorem validFrom_append (db : DB) : ∀ (qs : List (String × List String)) (jk : List String)
+    (p : String × List String),
+    validFrom db jk (qs ++ [p]) = (validFrom db jk qs && intersects (jk ++ keysOfJoins db qs) p.2) := by
+  intro qs
+  induction qs with
+  | nil => intro jk p; simp [validFrom, keysOfJoins]
+  | cons q qs ih =>
+    intro jk p
+    simp only [List.cons_append, validFrom, ih, keysOfJoins, List.flatMap_cons, List.append_assoc,
+      Bool.and_assoc]
+
+theorem validPlan_snoc (db : DB) (joins : List (String × List String)) (p : String × List String)
+    (hv : validPlan db joins = true)
+    (hp : (joins.isEmpty || intersects (keysOfJoins db joins) p.2) = true) :
+    validPlan db (joins ++ [p]) = true := by
+  cases joins with
+  | nil => simp [validPlan, validFrom]
+  | cons q qs =>
+    simp only [List.cons_append, validPlan, validFrom_append, Bool.and_eq_true]
+    simp only [validPlan] at hv
+    refine ⟨hv, ?_⟩
+    simpa [keysOfJoins] using hp
+
+theorem orderJoins_spec (db : DB) : ∀ (n : Nat) (jm : JoinMap) (joins : List (String × List String))
+    (jk : List String) (out : List (String × List String)),
+    jk = keysOfJoins db joins → validPlan db joins = true →
+    orderJoins db n jm joins jk = .ok out →
+    validPlan db out = true ∧ (∀ x, x ∈ joins ∨ x ∈ jm → x ∈ out) ∧ (∀ x ∈ out, x ∈ joins ∨ x ∈ jm) := by
+  intro n
+  induction n with
+  | zero =>
+    intro jm joins jk out hjk hv h
+    cases jm with
+    | nil =>
+      simp only [orderJoins] at h; cases h
+      exact ⟨hv, fun x hx => hx.elim id (by simp), fun x hx => Or.inl hx⟩
+    | cons a as => simp [orderJoins] at h
+  | succ n ih =>
+    intro jm joins jk out hjk hv h
+    cases jm with
+    | nil =>
+      simp only [orderJoins] at h; cases h
+      exact ⟨hv, fun x hx => hx.elim id (by simp), fun x hx => Or.inl hx⟩
+    | cons a as =>
+      simp only [orderJoins] at h
+      split at h
+      · cases h
+      · rename_i p hfind
+        have hpmem : p ∈ a :: as := List.mem_of_find?_eq_some hfind
+        have hpp := List.find?_some hfind
+        have hv' : validPlan db (joins ++ [p]) = true :=
+          validPlan_snoc db joins p hv (by rw [← hjk]; simpa using hpp)
+        have hjk' : jk ++ keyNamesOf db p.1 = keysOfJoins db (joins ++ [p]) := by
+          simp [keysOfJoins, hjk]
+        obtain ⟨h1, h2, h3⟩ := ih _ _ _ out hjk' hv' h
+        refine ⟨h1, ?_, ?_⟩
+        · intro x hx
+          rcases hx with hx | hx
+          · exact h2 x (Or.inl (by simp [hx]))
+          · by_cases e : x = p
+            · exact h2 x (Or.inl (by simp [e]))
+            · exact h2 x (Or.inr ((List.mem_erase_of_ne e).mpr hx))
+        · intro x hx
+          rcases h3 x hx with hx' | hx'
+          · rcases List.mem_append.mp hx' with hx'' | hx''
+            · exact Or.inl hx''
+            · simp at hx''; subst hx''; exact Or.inr hpmem
+          · exact Or.inr (List.mem_of_mem_erase hx')
+
+
+
+theorem filter_partition_length {α} (p : α → Bool) (l : List α) :
+    l.length = (l.filter p).length + (l.filter (fun x => !p x)).length := by
+  induction l with
+  | nil => simp
+  | cons a l ih =>
+    by_cases h : p a = true
+    · simp [h, ih]; omega
+    · have h' : p a = false := by simpa using h
+      simp [h', ih]; omega
+
+/-- a relation whose keys touch `m ≥ 2` components merges them into one -/
+theorem mergeComp_length (comps : List (List String)) (keys : List String) (hk : keys ≠ [])
+    (hm : 1 < (comps.filter (fun c => intersects keys c)).length) :
+    1 ≤ (mergeComp comps keys).length ∧ (mergeComp comps keys).length + 1 ≤ comps.length := by
+  have hp := filter_partition_length (fun c => intersects keys c) comps
+  unfold mergeComp
+  have : keys.isEmpty = false := by cases keys <;> simp_all
+  simp only [this, Bool.false_eq_true, ↓reduceIte, List.length_cons]
+  omega
+
+theorem rel?_of_mem (db : DB) (hnd : (db.map (·.name)).Nodup) (r : Rel) (hr : r ∈ db) :
+    db.rel? r.name = some r := by
+  induction db with
+  | nil => simp at hr
+  | cons a db ih =>
+    simp only [List.map_cons, List.nodup_cons] at hnd
+    unfold DB.rel?
+    rcases List.mem_cons.mp hr with e | e
+    · subst e; simp
+    · have hne : a.name ≠ r.name := by
+        intro heq
+        exact hnd.1 (List.mem_map.mpr ⟨r, e, heq.symm⟩)
+      simp only [List.find?_cons, hne, decide_false]
+      exact ih hnd.2 e
+
+theorem components_snoc (db : DB) (L : List String) (r : String) :
+    components db (L ++ [r]) = mergeComp (components db L) (keyNamesOf db r) := by
+  simp [components, List.foldl_append]
+
+/-- what `_pivot_relations` returns: linking relations that are not required, have more than
+one key, and each of which reduced the number of key components by at least one -/
+theorem pivotLoop_spec (db : DB) (hnd : (db.map (·.name)).Nodup) (relset : List String) :
+    ∀ (n : Nat) (pivots out : List String), pivotLoop db n relset pivots = .ok out →
+    ∃ extra, out = pivots ++ extra ∧
+      (∀ r ∈ extra, r ∉ relset ∧ 1 < (keyNamesOf db r).length) ∧
+      (components db (relset ++ out)).length ≤ 1 ∧
+      (extra.length + (components db (relset ++ out)).length ≤ (components db (relset ++ pivots)).length) ∧
+      (extra ≠ [] → 1 ≤ (components db (relset ++ out)).length) := by
+  intro n
+  induction n with
+  | zero => intro pivots out h; simp [pivotLoop] at h
+  | succ n ih =>
+    intro pivots out h
+    simp only [pivotLoop] at h
+    split at h
+    · rename_i hle
+      cases h
+      exact ⟨[], by simp, by simp, hle, by simp, by simp⟩
+    · split at h
+      · cases h
+      · rename_i r hfind
+        have hr := List.find?_some hfind
+        have hmem := List.mem_of_find?_eq_some hfind
+        simp only [Bool.and_eq_true, Bool.not_eq_true', decide_eq_true_eq] at hr
+        obtain ⟨⟨hnot, hlen⟩, htouch⟩ := hr
+        have hkeys : keyNamesOf db r.name = r.keyNames := by
+          simp [keyNamesOf, rel?_of_mem db hnd r hmem]
+        obtain ⟨extra, he, h1, h2, h3, h4⟩ := ih (pivots ++ [r.name]) out h
+        have hne : r.keyNames ≠ [] := by intro e; rw [e] at hlen; simp at hlen
+        have hml := mergeComp_length (components db (relset ++ pivots)) r.keyNames hne htouch
+        have hsn : components db (relset ++ (pivots ++ [r.name]))
+            = mergeComp (components db (relset ++ pivots)) r.keyNames := by
+          rw [← List.append_assoc, components_snoc, hkeys]
+        rw [hsn] at h3
+        refine ⟨r.name :: extra, by simp [he], ?_, h2, by simp only [List.length_cons]; omega, ?_⟩
+        · intro x hx
+          rcases List.mem_cons.mp hx with e | e
+          · subst e
+            have : r.name ∉ relset ++ pivots := by simpa using hnot
+            exact ⟨fun hc => this (List.mem_append_left _ hc), by rw [hkeys]; exact hlen⟩
+          · exact h1 x e
+        · intro _
+          by_cases hex : extra = []
+          · subst hex
+            simp only [List.append_nil] at he
+            rw [he, hsn]; exact hml.1
+          · exact h4 hex
+
+
+
+/-- all relation names of the join map are among `ns` -/
+def NamesIn (jm : JoinMap) (ns : List String) : Prop := ∀ x ∈ jm, x.1 ∈ ns
+
+theorem jmAdd_namesIn (jm : JoinMap) (r c : String) (ns : List String) (h : NamesIn jm ns) (hr : r ∈ ns) :
+    NamesIn (jmAdd jm r c) ns := by
+  intro x hx
+  rcases jmAdd_names jm r c x hx with e | ⟨y, hy, e⟩
+  · rw [e]; exact hr
+  · rw [← e]; exact h y hy
+
+theorem addKeys_namesIn (qs : List QName) (r : String) (ns : List String) (hr : r ∈ ns) :
+    ∀ (ks : List String) (jm : JoinMap), NamesIn jm ns → NamesIn (addKeys qs r ks jm) ns := by
+  intro ks
+  induction ks with
+  | nil => intro jm h; exact h
+  | cons k ks ih =>
+    intro jm h
+    simp only [addKeys, List.foldl_cons]
+    apply ih
+    split
+    · exact h
+    · exact jmAdd_namesIn jm r k ns h hr
+
+theorem allKeys_namesIn (db : DB) (qs : List QName) (ns : List String) :
+    ∀ (all : List String) (jm : JoinMap), (∀ r ∈ all, r ∈ ns) → NamesIn jm ns →
+    NamesIn (all.foldl (fun jm r => addKeys qs r (keyNamesOf db r) jm) jm) ns := by
+  intro all
+  induction all with
+  | nil => intro jm _ h; exact h
+  | cons r all ih =>
+    intro jm hall h
+    simp only [List.foldl_cons]
+    exact ih _ (fun x hx => hall x (by simp [hx]))
+      (addKeys_namesIn qs r ns (hall r (by simp)) _ jm h)
+
+theorem foldl_jmAdd_namesIn (ns : List String) : ∀ (qs : List QName) (jm : JoinMap),
+    (∀ q ∈ qs, q.1 ∈ ns) → NamesIn jm ns → NamesIn (qs.foldl (fun jm q => jmAdd jm q.1 q.2) jm) ns := by
+  intro qs
+  induction qs with
+  | nil => intro jm _ h; exact h
+  | cons q qs ih =>
+    intro jm hq h
+    simp only [List.foldl_cons]
+    exact ih _ (fun x hx => hq x (by simp [hx])) (jmAdd_namesIn jm q.1 q.2 ns h (hq q (by simp)))
+
+/-- the relations a query requires: those of its `from` clause and of its columns -/
+def requiredRels (projection condFs : List QName) (rels : List String) : List String :=
+  (rels ++ ((projection ++ condFs).eraseDups.map (·.1))).eraseDups
+
+theorem planJoins_valid_aux (db : DB) (hnd : (db.map (·.name)).Nodup) (projection condFs : List QName)
+    (rels : List String) (plan : Plan) (h : planJoins db projection condFs rels = .ok plan) :
+    validPlan db plan.joins = true ∧
+    (∀ q ∈ projection ++ condFs, Covered plan.joins q.1 q.2) ∧
+    (∀ r ∈ requiredRels projection condFs rels, (db.rel? r).isSome ∧
+        ∀ k ∈ keyNamesOf db r, Covered plan.joins r k) ∧
+    ∃ pivots : List String,
+      (∀ p ∈ plan.joins, p.1 ∈ requiredRels projection condFs rels ++ pivots) ∧
+      (∀ r ∈ pivots, r ∉ requiredRels projection condFs rels ∧ 1 < (keyNamesOf db r).length ∧
+        ∀ k ∈ keyNamesOf db r, Covered plan.joins r k) ∧
+      (pivots ≠ [] → pivots.length + 1 ≤ (components db (requiredRels projection condFs rels)).length) := by
+  unfold planJoins at h
+  simp only at h
+  split at h
+  · cases h
+  · rename_i hex
+    split at h
+    · cases h
+    · rename_i pivots hpiv
+      split at h
+      · cases h
+      · rename_i joins hord
+        cases h
+        simp only
+        obtain ⟨extra, he, hp1, _, hp3, hp4⟩ :=
+          pivotLoop_spec db hnd _ _ [] pivots hpiv
+        simp only [List.nil_append] at he
+        subst he
+        have hq0 := (foldl_jmAdd_covers (projection ++ condFs).eraseDups []).1
+        have hk := allKeys_covers db (projection ++ condFs).eraseDups
+          (requiredRels projection condFs rels ++ pivots) _ hq0
+        obtain ⟨ho1, ho2, ho3⟩ := orderJoins_spec db _ _ [] [] joins rfl rfl hord
+        have cov : ∀ r c, Covered (List.foldl (fun jm r => addKeys (projection ++ condFs).eraseDups r
+            (keyNamesOf db r) jm) (List.foldl (fun jm q => jmAdd jm q.1 q.2) [] (projection ++ condFs).eraseDups)
+            (requiredRels projection condFs rels ++ pivots)) r c → Covered joins r c := by
+          intro r c ⟨cols, hm, hc⟩
+          exact ⟨cols, ho2 _ (Or.inr hm), hc⟩
+        refine ⟨ho1, ?_, ?_, pivots, ?_, ?_, ?_⟩
+        · intro q hq
+          exact cov _ _ (hk.1 _ _ (hq0 q (List.mem_eraseDups.mpr hq)))
+        · intro r hr
+          refine ⟨?_, fun k hk' => cov _ _ (hk.2 r (List.mem_append_left _ hr) k hk')⟩
+          have : ¬ (requiredRels projection condFs rels).any (fun r => (db.rel? r).isNone) = true := hex
+          simp only [List.any_eq_true, not_exists, not_and] at this
+          have := this r hr
+          cases hrel : db.rel? r <;> simp_all
+        · intro p hp
+          rcases ho3 p hp with e | e
+          · simp at e
+          · have hn := allKeys_namesIn db (projection ++ condFs).eraseDups
+              (requiredRels projection condFs rels ++ pivots)
+              (requiredRels projection condFs rels ++ pivots) _ (fun r hr => hr)
+              (foldl_jmAdd_namesIn (requiredRels projection condFs rels ++ pivots) (projection ++ condFs).eraseDups [] ?_ (by intro x hx; simp at hx))
+            · exact hn p e
+            · intro q hq
+              apply List.mem_append_left
+              unfold requiredRels
+              rw [List.mem_eraseDups]
+              exact List.mem_append_right _ (List.mem_map.mpr ⟨q, hq, rfl⟩)
+        · intro r hr
+          exact ⟨(hp1 r hr).1, (hp1 r hr).2, fun k hk' => cov _ _ (hk.2 r (List.mem_append_right _ hr) k hk')⟩
+        · intro hne
+          have := hp4 hne
+          simp only [List.append_nil] at hp3
+          unfold requiredRels
+          omega
+
+
+
+/-! ### tree-linked schemas -/
+
+/-- one relation joins the incidence forest relations — key names without closing a cycle iff no
+two of its keys already lie in the same component -/
+def treeStep (acc : Option (List (List String))) (ks : List String) : Option (List (List String)) :=
+  match acc with
+  | none => none
+  | some comps =>
+    if ks.Nodup ∧ comps.all (fun c => (ks.filter (fun k => c.contains k)).length ≤ 1)
+    then some (mergeComp comps ks) else none
+
+/-- "relations linked by key columns in a tree": the bipartite graph relations — key names is a
+forest, i.e. any two relations are linked by at most one path of shared keys (decidable) -/
+def treeLinked (db : DB) : Bool :=
+  (db.foldl (fun acc r => treeStep acc r.keyNames) (some [])).isSome
+
+def subsets {α} : List α → List (List α)
+  | [] => [[]]
+  | a :: l => (subsets l).map (a :: ·) ++ subsets l
+
+/-- the plan for `from req` exists, is a valid join order, contains every required relation and at
+most one relation more -/
+def planOK (db : DB) (req : List String) : Bool :=
+  match planJoins db [] [] req with
+  | .error _ => false
+  | .ok plan =>
+    validPlan db plan.joins && req.all (fun r => plan.joins.any (fun p => p.1 = r))
+      && decide (plan.joins.length ≤ req.length + 1)
+
+/-- the TSDB core: item, run, parse, result -/
+def coreSchema : DB :=
+  [{ name := "item", fields := [⟨"i-id", .integer, true⟩, ⟨"i-input", .string, false⟩], rows := [] },
+   { name := "run", fields := [⟨"run-id", .integer, true⟩, ⟨"r-comment", .string, false⟩], rows := [] },
+   { name := "parse", fields := [⟨"parse-id", .integer, true⟩, ⟨"run-id", .integer, true⟩, ⟨"i-id", .integer, true⟩,
+       ⟨"readings", .integer, false⟩], rows := [] },
+   { name := "result", fields := [⟨"parse-id", .integer, true⟩, ⟨"result-id", .integer, false⟩, ⟨"mrs", .string, false⟩],
+       rows := [] }]
+
+
+
 end Verif.C11
